@@ -81,11 +81,36 @@ pub fn err_str<T>(r: &Result<T, servlin::internal::HttpError>) -> Option<String>
 }
 
 pub fn case(ctx: &mut Ctx, script: &str, ops: &str) {
+    case_m(ctx, script, ops, "");
+}
+
+/// `mode` = "rst": the client sends the script, waits until the server has written something (the interim response), and
+/// then closes without reading it: the server's next read fails with a reset instead of reporting the end of the stream.
+pub fn case_m(ctx: &mut Ctx, script: &str, ops: &str, mode: &str) {
     let sc = dec(script);
     let ops_o = ops.to_string();
+    let rst = mode == "rst";
     let obs = guard(move || {
-        let mut p = pair();
-        send_script(&mut p.client, &sc);
+        let crate::net::Pair { client: client0, conn } = pair();
+        // (in `rst` mode the only handle of the client socket moves into the thread that closes it)
+        let mut client_opt = Some(client0);
+        struct P { client: Option<std::net::TcpStream>, conn: servlin::HttpConn }
+        let mut resetter = None;
+        if rst {
+            use std::io::Write;
+            let mut c2 = client_opt.take().unwrap();
+            let _ = c2.write_all(&sc);
+            resetter = Some(std::thread::spawn(move || {
+                let _ = c2.set_read_timeout(Some(std::time::Duration::from_millis(1500)));
+                let mut b = [0u8; 1];
+                let _ = c2.peek(&mut b);
+                std::thread::sleep(std::time::Duration::from_millis(40));
+                drop(c2);
+            }));
+        } else {
+            send_script(client_opt.as_mut().unwrap(), &sc);
+        }
+        let mut p = P { client: client_opt, conn };
         let dir = super::c06::scratch_dir().join("c05");
         std::fs::create_dir_all(&dir).unwrap();
         let mut outs = Vec::new();
@@ -106,12 +131,13 @@ pub fn case(ctx: &mut Ctx, script: &str, ops: &str) {
             }
         });
         drop(held);
-        let mut client = p.client;
+        let client = p.client;
         drop(p.conn);
-        let wire = read_transcript(&mut client);
+        let wire = match client { Some(mut c) => read_transcript(&mut c), None => Vec::new() };
+        if let Some(h) = resetter { let _ = h.join(); }
         format!("{} wire={}", outs.join(";"), enc(&wire))
     });
-    ctx.emit("c05", &[script, ops], &obs);
+    if mode.is_empty() { ctx.emit("c05", &[script, ops], &obs); } else { ctx.emit("c05", &[script, ops, mode], &obs); }
 }
 
 pub fn scripts() -> Vec<Vec<u8>> {
@@ -137,6 +163,7 @@ pub fn scripts() -> Vec<Vec<u8>> {
 /// C03 at connection level: 1..8 messages concatenated on one stream; each is read, its body read (to memory or
 /// to a file), answered; the next request must start exactly after the previous body.
 pub fn run_c03b(ctx: &mut Ctx) {
+    run_rst(ctx);
     let mut rng = Rng::new(ctx.seed.wrapping_add(33));
     let n = if ctx.thorough() { 20_000 } else { 2_500 };
     for i in 0..n {
@@ -264,9 +291,23 @@ pub fn run_c08d_expect(ctx: &mut Ctx) {
     }
 }
 
+/// Bodies that end with a connection reset instead of end-of-stream (API level): a reset is an error, not the end of a body.
+pub fn run_rst(ctx: &mut Ctx) {
+    let nolen = enc(b"PUT /l HTTP/1.1\r\nexpect: 100-continue\r\n\r\nbody-without-length");
+    let short = enc(b"PUT /d HTTP/1.1\r\nexpect: 100-continue\r\ncontent-length: 50\r\n\r\nhello");
+    let mut idx = 2000u64;
+    for (script, opss) in [(&nolen, vec!["rr;bv", "rr;bf:100000", "rr;bf:5", "rr;bv;bv", "rr;bf:100000;rr"]), (&short, vec!["rr;bv", "rr;bf:100", "rr;bv;rr"])] {
+        for ops in opss {
+            idx += 1;
+            if ctx.mine(idx) { case_m(ctx, script, ops, "rst"); }
+        }
+    }
+}
+
 pub const OPS: [&str; 14] = ["rr", "bv", "bf:0", "bf:4", "bf:5", "bf:100000", "wc", "wr:100:e", "wr:200:n", "wr:404:n", "wr:500:n", "wr:200:d", "wr:200:c", "sw"];
 
 pub fn run(ctx: &mut Ctx) {
+    run_rst(ctx);
     let mut rng = Rng::new(ctx.seed.wrapping_add(5));
     let mut idx = 0u64;
     let depth = if ctx.thorough() { 4 } else { 3 };
